@@ -8,7 +8,8 @@
   `deliver r names` (any non-empty set of this rank's posted receives whose message has been
   sent — what `Waitsome` may report — and only when no part of `r` is ready, as in the real
   loop).  All theorems quantify over EVERY partition satisfying `WFexec` (the part of the
-  `DistributedGraphPart` contract the executor relies on; implied by C09's `WF`) (any number of ranks, parts,
+  `DistributedGraphPart` contract the executor relies on; implied by C09's `WF` together with
+  "no part reads an overall output", `wf_implies_wfexec`) (any number of ranks, parts,
   messages), EVERY interleaving of ranks and EVERY `Waitsome` outcome.  The tie to the real
   code (real traces are `Step` paths with equal enabled sets; real partitions pass `checkWF`)
   is the correspondence check in harness/props/c08.py.
@@ -70,8 +71,9 @@ theorem faithful {P : Partition} (hwf : WFexec P) {ref : Nat → Name → V}
 theorem checkWFexec_sound (P : Partition) (h : checkWFexec P = true) : WFexec P :=
   checkWFexec_sound_lemma P h
 
-/-- the full contract of C09 implies `WFexec` -/
-theorem wf_implies_wfexec {P : Partition} (h : WF P) : WFexec P := wfexec_of_wf h
+/-- the full contract of C09 plus "no part reads an overall output" implies `WFexec` -/
+theorem wf_implies_wfexec {P : Partition} (h : WF P) (hnr : OutputsNotRead P) : WFexec P :=
+  wfexec_of_wf h hnr
 
 /-! ## non-vacuity -/
 
@@ -94,6 +96,10 @@ def exRef : Nat → Name → Nat := fun r n =>
 
 example : checkWF exP = true := by decide +kernel
 theorem exP_wf : WFexec exP := checkWFexec_sound exP (by decide +kernel)
+
+/-- the hypotheses of `wf_implies_wfexec` are satisfiable -/
+example : WF exP ∧ OutputsNotRead exP :=
+  ⟨checkWF_sound_lemma exP (by decide +kernel), by unfold OutputsNotRead; decide +kernel⟩
 
 /-- the hypotheses of `progress` hold in the initial state (which is not terminal) -/
 example : ¬ Terminal exP (init exSem exP) := by
